@@ -2,7 +2,7 @@ package vsched
 
 import (
 	"fmt"
-	"strings"
+	"strconv"
 	"time"
 )
 
@@ -34,6 +34,9 @@ type Harness interface {
 type Config struct {
 	Setup    func(s *Sched) Harness
 	MaxExecs int
+	// MaxFailed ends the exploration (Exhaustive=false) once that many
+	// executions ended in an oracle failure: the verdict is known.
+	MaxFailed int
 	Deadline time.Time
 }
 
@@ -62,11 +65,41 @@ type frame struct {
 }
 
 func choicesSig(cs []Choice) string {
-	var b strings.Builder
+	buf := make([]byte, 0, 32*len(cs))
 	for _, c := range cs {
-		fmt.Fprintf(&b, "%d@%s#%d,", c.T.ID, c.T.site, c.Idx)
+		buf = strconv.AppendInt(buf, int64(c.T.ID), 10)
+		buf = append(buf, '@')
+		buf = append(buf, c.T.site...)
+		buf = append(buf, '#')
+		buf = strconv.AppendInt(buf, int64(c.Idx), 10)
+		buf = append(buf, ',')
 	}
-	return b.String()
+	return string(buf)
+}
+
+// step is one executed decision, kept unformatted (formatting every replayed
+// step would dominate the run time).
+type step struct {
+	name, site string
+	idx        int
+	c          Case
+}
+
+func (st step) String() string {
+	t := &Thread{Name: st.name, site: st.site}
+	if st.idx >= 0 {
+		t.cases = make([]Case, st.idx+1)
+		t.cases[st.idx] = st.c
+	}
+	return Choice{T: t, Idx: st.idx}.String()
+}
+
+func fmtTrace(tr []step) []string {
+	out := make([]string, len(tr))
+	for i, st := range tr {
+		out[i] = st.String()
+	}
+	return out
 }
 
 // Explore runs a depth-first search over all scheduling decisions. Every
@@ -86,7 +119,7 @@ func Explore(cfg Config) *Result {
 			break
 		}
 		stack[len(stack)-1].idx++
-		if (cfg.MaxExecs > 0 && res.Executions >= cfg.MaxExecs) || (!cfg.Deadline.IsZero() && res.Executions%256 == 0 && time.Now().After(cfg.Deadline)) {
+		if (cfg.MaxExecs > 0 && res.Executions >= cfg.MaxExecs) || (cfg.MaxFailed > 0 && res.Failed >= cfg.MaxFailed) || (!cfg.Deadline.IsZero() && res.Executions%256 == 0 && time.Now().After(cfg.Deadline)) {
 			res.Exhaustive = false
 			break
 		}
@@ -100,7 +133,7 @@ func runOne(stackp *[]frame, visited map[string]struct{}, cfg Config, res *Resul
 	h := cfg.Setup(s)
 	s.startNewborns()
 	replayLen := len(*stackp)
-	var trace []string
+	var trace []step
 	complete := false
 	d := 0
 	for {
@@ -165,7 +198,11 @@ func runOne(stackp *[]frame, visited map[string]struct{}, cfg Config, res *Resul
 			res.Transitions++
 		}
 		res.Steps++
-		trace = append(trace, ch.String())
+		st := step{name: ch.T.Name, site: ch.T.site, idx: ch.Idx}
+		if ch.Idx >= 0 {
+			st.c = ch.T.cases[ch.Idx]
+		}
+		trace = append(trace, st)
 		s.apply(ch)
 		h.Observe()
 		d++
@@ -174,9 +211,13 @@ func runOne(stackp *[]frame, visited map[string]struct{}, cfg Config, res *Resul
 		}
 	}
 	if complete && res.Sample == nil {
-		res.Sample = append([]string{}, trace...)
+		res.Sample = fmtTrace(trace)
 	}
-	h.EndOfExecution(trace, complete)
+	if h.Failed() {
+		h.EndOfExecution(fmtTrace(trace), complete)
+	} else {
+		h.EndOfExecution(nil, complete)
+	}
 	s.killAll()
 	cur = nil
 }
